@@ -36,6 +36,8 @@ RULE = (
     "loader: complete enumeration of atomic numbers 1..118, each as int, numpy integer and 4 symbol spellings; "
     "non-trivial = an element with shipped parameters or the neighbours of one. distinct = distinct descriptor"
 )
+RULE = RULE + " " + 'loader: the returned arrays are destroyed in place between the seven spellings of the same element.'
+
 ASSUMPTIONS = [
     "mpmath gammainc/gamma/exp at 50 digits (cross-checked in the oracle self-test against mp.quad of the definition and mp.diff)",
     "the documented density in each docstring of grid/coulomb.py is the specification of the function",
